@@ -76,6 +76,20 @@ func headerFieldValue(v ssa.Value, recv ssa.Value) (string, bool) {
 	return f.Name(), true
 }
 
+// headerFieldOctet: v is byte(f >> 8k) for a field f of the receiver; returns the field and k.
+func headerFieldOctet(v ssa.Value, recv ssa.Value) (string, int64, bool) {
+	cv, ok := v.(*ssa.Convert)
+	if !ok {
+		return "", 0, false
+	}
+	src, k, ok := octetOf(cv)
+	if !ok {
+		return "", 0, false
+	}
+	f, ok := headerFieldValue(src, recv)
+	return f, k, ok
+}
+
 // extractHeaderEncoderSSA: the function returns a 12-byte buffer every octet of which is written exactly once
 // at a constant offset, by single-octet stores or big-endian 32-bit puts, from fields of the receiver.
 func extractHeaderEncoderSSA(p *Program, fn *ssa.Function, lc *layoutCtx) ([]string, []string) {
@@ -134,7 +148,9 @@ func extractHeaderEncoderSSA(p *Program, fn *ssa.Function, lc *layoutCtx) ([]str
 				if _, dup := written[k]; dup {
 					errs = append(errs, fmt.Sprintf("offset %d is written twice", k))
 				}
-				if f, ok := headerFieldValue(st.Val, recv); ok {
+				if f, sh, ok := headerFieldOctet(st.Val, recv); ok && sh > 0 {
+					written[k] = fmt.Sprintf("octet:%s:%d", f, sh)
+				} else if f, ok := headerFieldValue(st.Val, recv); ok {
 					written[k] = "u8:" + f
 				} else if isVersionOctet(st.Val, recv) {
 					written[k] = lc.versionItem()
@@ -192,6 +208,23 @@ func extractHeaderEncoderSSA(p *Program, fn *ssa.Function, lc *layoutCtx) ([]str
 			if !ok || cs.base != buf || cs.lo != 0 || (cs.hi >= 0 && cs.hi != 12) {
 				errs = append(errs, "the value returned is not the whole 12-byte buffer")
 			}
+		}
+	}
+	// a field written octet by octet, most significant first: byte(f>>24), byte(f>>16), byte(f>>8), byte(f)
+	for k := int64(0); k+3 < 12; k++ {
+		var f string
+		var sh int64
+		if n, _ := fmt.Sscanf(strings.ReplaceAll(written[k], ":", " "), "octet %s %d", &f, &sh); n != 2 || sh != 3 {
+			continue
+		}
+		if written[k+1] == fmt.Sprintf("octet:%s:2", f) && written[k+2] == fmt.Sprintf("octet:%s:1", f) && written[k+3] == "u8:"+f {
+			written[k] = "be32:" + f
+			written[k+1], written[k+2], written[k+3] = "-", "-", "-"
+		}
+	}
+	for k, it := range written {
+		if strings.HasPrefix(it, "octet:") {
+			errs = append(errs, fmt.Sprintf("offset %d holds one octet of a field that is not written out whole, most significant octet first", k))
 		}
 	}
 	var out []string
